@@ -461,21 +461,25 @@ class Autoscaler(AutoscalerBase):
         if not self._has_scaling:
             return desvar_multipliers, con_multipliers
 
+        def _scaler(meta):
+            # total_scaler is None, a float or an array ("x or 1.0" is ambiguous for arrays)
+            return 1.0 if meta['total_scaler'] is None else meta['total_scaler']
+
         # Get the objective scaler from cached combined scalers
         obj_meta = self._var_meta['objective']
         obj_name = list(obj_meta.keys())[0]
-        obj_scaler = obj_meta[obj_name]['total_scaler'] or 1.0
+        obj_scaler = _scaler(obj_meta[obj_name])
 
         if desvar_multipliers:
             for name, mult in desvar_multipliers.items():
                 # Get the design variable scaler from cached combined scalers
-                scaler = self._var_meta['design_var'][name]['total_scaler'] or 1.0
+                scaler = _scaler(self._var_meta['design_var'][name])
                 mult *= scaler / obj_scaler
 
         if con_multipliers:
             for name, mult in con_multipliers.items():
                 # Get the constraint scaler from cached combined scalers
-                scaler = self._var_meta['constraint'][name]['total_scaler'] or 1.0
+                scaler = _scaler(self._var_meta['constraint'][name])
                 mult *= scaler / obj_scaler
 
         return desvar_multipliers, con_multipliers
